@@ -104,6 +104,22 @@ def property_aliases(idx, cls):
                         e = e[1]
                     if e == ('name', 'self') and v != ('name', 'self'):
                         out.setdefault(('attr', ('name', 'self'), name), v)
+                elif body and isinstance(body[-1], ast.Return) and body[-1].value is not None and \
+                        all(isinstance(s, ast.Assign) for s in body[:-1]) and len(f.params) == 1:
+                    # a getter that unpacks a private record first:  a, _ = self._params; return a
+                    try:
+                        w = get_fn(idx, f)
+                    except Exception:
+                        continue
+                    if len(w.t.returns) == 1 and not w.t.unsupported:
+                        v = ir.norm(w.t.returns[0][0])
+                        e = v
+                        while e[0] in ('attr', 'sub'):
+                            if e[0] == 'sub' and e[2][0] != 'const':
+                                break
+                            e = e[1]
+                        if e == ('name', 'self') and v != ('name', 'self'):
+                            out.setdefault(('attr', ('name', 'self'), name), v)
     return out
 
 
